@@ -39,6 +39,10 @@ func idInt(nameID string) int {
 
 func checkA(h History) *core.Violation {
 	countCells(h)
+	return underFaultSig(h, checkA1(h), checkA1)
+}
+
+func checkA1(h History) *core.Violation {
 	return onExistingFile(h, runA(h, h.dbMode()), func() *core.Violation { return runA(h, "fresh") })
 }
 
@@ -57,7 +61,15 @@ func runA(h History, mode string) *core.Violation {
 	}
 	for i, op := range h.flat() {
 		if pm == nil {
-			r.apply(op)
+			if h.Fault != nil && (op.K == "restart" || op.K == "restartx") && i > h.Fault.At {
+				// histories with a fault: every restart after it is compared, not only the final reopen
+				// (a restart takes the database's word for everything and would hide what was lost)
+				if v := compareRestored(w, r, nil); v != nil {
+					v.Msg = fmt.Sprintf("before the restart at operation %d: %s", i, v.Msg)
+					return v
+				}
+			}
+			r.step(i, op)
 			continue
 		}
 		isRestart := op.K == "restart" || op.K == "restartx"
@@ -65,7 +77,7 @@ func runA(h History, mode string) *core.Violation {
 		if isRestart {
 			before = activeIDs(w)
 		}
-		done := r.apply(op)
+		done := r.step(i, op)
 		if !isRestart {
 			pm.step(op, nil)
 			continue
@@ -113,6 +125,10 @@ func compareRestored(w *pvx.World, r *runState, pm *pmodel) *core.Violation {
 			return core.V("agents|restored-twice", "agent %s is returned twice by AgentAll", a.NameID)
 		}
 		got[a.NameID] = imageOf(a)
+	}
+	for id := range r.exAgents { // fault_test.go: rows a failed statement left behind the memory
+		delete(want, id)
+		delete(got, id)
 	}
 	var ids []string
 	for id := range want {
@@ -185,6 +201,9 @@ func compareRestored(w *pvx.World, r *runState, pm *pmodel) *core.Violation {
 	for _, id := range ids {
 		if pm != nil {
 			break
+		}
+		if r.exLinks[id] {
+			continue // fault_test.go: links a failed statement left behind the memory
 		}
 		wantParent := ""
 		var wantKids []string
@@ -572,40 +591,45 @@ func genOps(t *rapid.T, n, nagents int, allowHTTP bool) []Op {
 	fam := rapid.IntRange(0, len(nameFamilies)-1).Draw(t, "name-family")
 	for i := 0; i < n; i++ {
 		op := Op{K: rapid.SampledFrom(opKinds).Draw(t, "kind")}
-		switch op.K {
-		case "ladd":
-			op.L = genLSpec(t, allowHTTP, fam)
-		case "ledit":
-			if !allowHTTP {
-				op.K = "poll"
-				op.A = rapid.IntRange(0, nagents-1).Draw(t, "agent")
-				break
-			}
-			op.L = &LSpec{Kind: "http", HTTP: genHTTP(t)}
-		case "lremove":
-			op.A = rapid.IntRange(0, 5).Draw(t, "lidx")
-		case "restart":
-		default:
-			op.A = rapid.IntRange(0, nagents-1).Draw(t, "agent")
-		}
-		switch op.K {
-		case "connect", "disconnect":
-			op.B = rapid.IntRange(0, nagents-1).Draw(t, "named")
-		case "checkin":
-			m := genMeta(t)
-			op.M = &m
-			op.S = rapid.Byte().Draw(t, "newseed")
-		case "sleep":
-			op.V = uint64(genU32(t, "delay"))
-			op.W = rapid.Uint32Range(0, 100).Draw(t, "jitter")
-		case "cfgkill":
-			op.V = rapid.OneOf(rapid.Just(uint64(0)), rapid.Uint64()).Draw(t, "killdate")
-		case "cfgwh":
-			op.V = uint64(genU32(t, "wh"))
-		}
+		fillOp(t, &op, nagents, allowHTTP, fam)
 		ops = append(ops, op)
 	}
 	return ops
+}
+
+// fillOp draws the arguments of an operation of kind op.K.
+func fillOp(t *rapid.T, op *Op, nagents int, allowHTTP bool, fam int) {
+	switch op.K {
+	case "ladd":
+		op.L = genLSpec(t, allowHTTP, fam)
+	case "ledit":
+		if !allowHTTP {
+			op.K = "poll"
+			op.A = rapid.IntRange(0, nagents-1).Draw(t, "agent")
+			break
+		}
+		op.L = &LSpec{Kind: "http", HTTP: genHTTP(t)}
+	case "lremove":
+		op.A = rapid.IntRange(0, 5).Draw(t, "lidx")
+	case "restart":
+	default:
+		op.A = rapid.IntRange(0, nagents-1).Draw(t, "agent")
+	}
+	switch op.K {
+	case "connect", "disconnect":
+		op.B = rapid.IntRange(0, nagents-1).Draw(t, "named")
+	case "checkin":
+		m := genMeta(t)
+		op.M = &m
+		op.S = rapid.Byte().Draw(t, "newseed")
+	case "sleep":
+		op.V = uint64(genU32(t, "delay"))
+		op.W = rapid.Uint32Range(0, 100).Draw(t, "jitter")
+	case "cfgkill":
+		op.V = rapid.OneOf(rapid.Just(uint64(0)), rapid.Uint64()).Draw(t, "killdate")
+	case "cfgwh":
+		op.V = uint64(genU32(t, "wh"))
+	}
 }
 
 func genA(t *rapid.T) History {
@@ -626,7 +650,7 @@ func genA(t *rapid.T) History {
 	n := rapid.IntRange(0, 25).Draw(t, "nops")
 	h.Ops = append(h.Ops, genOps(t, n, len(h.Agents), true)...)
 	h.Ops = withCrafted(t, h.Ops, nreg)
-	return h
+	return withFault(t, h, nreg, true) // fault_test.go
 }
 
 // ---------------------------------------------------------------- classification (model of which events take effect)
@@ -914,6 +938,7 @@ func classifyH(h History) core.Class {
 	cl.Labels = append(cl.Labels, pivL...)
 	scaleL := scaleLabels(h) // scale_test.go
 	cl.Labels = append(cl.Labels, scaleL...)
+	cl.Labels = append(cl.Labels, faultLabels(h)...) // fault_test.go
 	var lk []string
 	for k := range s.lkinds {
 		lk = append(lk, k)
@@ -983,6 +1008,9 @@ func classifyH(h History) core.Class {
 	}
 	if len(scaleL) > 0 {
 		cl.Fingerprint += "|" + scaleL[0]
+	}
+	if h.Fault != nil {
+		cl.Fingerprint += "|fault=" + h.Fault.How
 	}
 	return cl
 }
